@@ -55,13 +55,16 @@ class Compiler:
             local_symbol_prefix = f".local{self.next_local_symbol_prefix}."
             self.next_local_symbol_prefix += 1
 
+        if VERIF_HOOKS:
+            verif_frame = self.verif_hook("enter", block, state, start)
+
         try:
             for insn in block.insns:
                 state = {**state, "insn": insn, "emit_address": addr, "local_symbol_prefix": local_symbol_prefix}
                 if isinstance(insn, Instruction):
                     chunk = self.compile_insn(insn, state)
                     if VERIF_HOOKS:
-                        self.verif_hook("insn", insn, state, chunk)
+                        self.verif_hook("insn", insn, state, chunk, verif_frame)
                     if chunk is not None:
                         data += chunk
                         if isinstance(chunk, BaseDeferred):
@@ -72,7 +75,7 @@ class Compiler:
                 elif isinstance(insn, WordList):
                     chunk = self.compile_word_list(insn, insn.words, state)
                     if VERIF_HOOKS:
-                        self.verif_hook("words", insn, state, chunk)
+                        self.verif_hook("words", insn, state, chunk, verif_frame)
                     data += chunk
                     if isinstance(chunk, BaseDeferred):
                         addr += chunk.length()
@@ -92,7 +95,7 @@ class Compiler:
 
                     self.compile_label(insn, addr, state)
                     if VERIF_HOOKS:
-                        self.verif_hook("label", insn, state, None)
+                        self.verif_hook("label", insn, state, None, verif_frame)
                     if not insn.local:
                         local_symbol_prefix = f".local{self.next_local_symbol_prefix}."
                         self.next_local_symbol_prefix += 1
@@ -120,7 +123,7 @@ class Compiler:
 
                                 chunk = Deferred[bytes](fn)
                                 if VERIF_HOOKS:
-                                    self.verif_hook("skip", insn, state, chunk)
+                                    self.verif_hook("skip", insn, state, chunk, verif_frame)
                                 data += chunk
                                 if isinstance(chunk, BaseDeferred):
                                     addr += chunk.length()
@@ -149,13 +152,17 @@ class Compiler:
         except CompilerStopIteration:
             pass
 
+        if VERIF_HOOKS:
+            self.verif_hook("exit", block, state, data, verif_frame)
+
         return data
 
 
-    def verif_hook(self, kind, insn, state, chunk):
+    def verif_hook(self, kind, insn, state, chunk, frame=None):
         if not hasattr(self, "verif_trace"):
             self.verif_trace = []
-        self.verif_trace.append((kind, insn, state, chunk))
+        self.verif_trace.append((kind, insn, state, chunk, frame))
+        return len(self.verif_trace)
 
 
     def compile_label(self, label, addr, state):
